@@ -90,7 +90,7 @@ func (cs *ContractSet) LoadContractFile(path, pkgPath string) error {
 	var curLemma *Lemma
 	type pending struct {
 		kind, label, text string
-		line             int
+		line              int
 	}
 	var pend *pending
 	flush := func() error {
